@@ -24,10 +24,18 @@ EXTENDS Integers, Sequences, FiniteSets, TLC, Json
 CONSTANTS MaxDev,      \* documents differ from the base document in at most MaxDev features
           MaxLen       \* access histories up to this length for the base document, one shorter per deviation
 
-Targets == {"M", "O", "Z"}
-PathOf(t) == IF t = "Z" THEN "/z" ELSE "/m/{id}"
+Targets == {"M", "O", "Z"}             \* the operations every lookup route is tried on
+AllOps == Targets \cup {"W"}            \* W: a sibling of Z whose path is what a WRONG pointer decoding of Z's path yields
+(* Z's path may contain "~" literally, next to "0" / "1" and to "/": as a JSON pointer token "/f/~1" is "~1f~1~01" and must decode
+   back to "/f/~1" ("~1" first, then "~0"), not to "/f//" *)
+ZPaths == {"/z", "/f/~1", "/f/~0", "/f/~01", "/f/~10"}
+HasW(d) == d.zpath \in {"/f/~1", "/f/~10"}
+PathOf(d, t) == CASE t = "Z" -> d.zpath
+                  [] t = "W" -> (IF d.zpath = "/f/~1" THEN "/f//" ELSE "/f//0")
+                  [] OTHER -> "/m/{id}"
 MethodOf(t) == IF t = "O" THEN "get" ELSE "post"
-IdOf(t) == CASE t = "M" -> "opM" [] t = "O" -> "opO" [] OTHER -> "opZ"
+IdOf(t) == CASE t = "M" -> "opM" [] t = "O" -> "opO" [] t = "W" -> "opW" [] OTHER -> "opZ"
+Ops(d) == IF HasW(d) THEN AllOps ELSE Targets
 Routes == {"path", "id", "ref"}
 
 (* ------------------------------- documents ------------------------------ *)
@@ -43,17 +51,25 @@ DocSpace == [plK1 : BOOLEAN, plK2 : BOOLEAN,                 \* path-level param
              cross : {"none", "fwd", "mirror"},              \* "fwd": path-level (c, query); M declares (c, header) AND (d, query):
                                                              \*   one shares only the name, the other only the location - nothing is overridden
                                                              \* "mirror": path-level (c, header) and (d, query); M declares (c, query)
+             zpath : ZPaths,                                 \* Z's path (with W next to it when a wrong decoding would alias to another path)
+             collide : BOOLEAN,                              \* the document holding M's path item and the root document each define
+                                                             \*   a parameter under the SAME local pointer text with different content:
+                                                             \*   M / O use their own document's (lim, tag 13), Z the root's (lim, tag 12)
              sec : Secs,                                     \* security scheme kind ("off": global, disabled on M)
              bad : Bads]                                     \* malformed entry in Z
 Base == [plK1 |-> TRUE, plK2 |-> FALSE, olK1 |-> TRUE, olK2 |-> FALSE, olK3 |-> FALSE, orient |-> "pT",
-         pdepth |-> 1, odepth |-> 0, pathRef |-> FALSE, body |-> "two", rec |-> FALSE, cross |-> "none", sec |-> "hdr", bad |-> "none"]
+         pdepth |-> 1, odepth |-> 0, pathRef |-> FALSE, body |-> "two", rec |-> FALSE, cross |-> "none", zpath |-> "/z", collide |-> FALSE,
+         sec |-> "hdr", bad |-> "none"]
 B2N(b) == IF b THEN 1 ELSE 0
 Weight(d) == B2N(d.plK1 # Base.plK1) + B2N(d.plK2 # Base.plK2) + B2N(d.olK1 # Base.olK1) + B2N(d.olK2 # Base.olK2)
            + B2N(d.olK3 # Base.olK3) + B2N(d.orient # Base.orient) + B2N(d.pdepth # Base.pdepth)
-           + B2N(d.odepth # Base.odepth) + B2N(d.pathRef # Base.pathRef) + B2N(d.body # Base.body)
+           + B2N(d.odepth # Base.odepth) + B2N(d.pathRef # Base.pathRef /\ ~d.collide) + B2N(d.body # Base.body)
+           \* (a second document with colliding pointers IS a path item behind a $ref: one deviation, not two)
            + B2N(d.rec # Base.rec) + B2N(d.sec # Base.sec) + B2N(d.bad # Base.bad) + B2N(d.cross # Base.cross)
+           + B2N(d.zpath # Base.zpath) + B2N(d.collide # Base.collide)
 WF(d) == /\ (d.rec => d.body # "none")
          /\ ((~d.olK1 /\ ~d.olK2 /\ ~d.olK3 /\ d.cross = "none") => d.odepth = 0)
+         /\ (d.collide => d.pathRef)                  \* two documents are needed for two definitions under one pointer text
 (* all documents within MaxDev single-feature changes of Base (built by changing one feature at a time) *)
 Variants(d) == {[d EXCEPT !.plK1 = b] : b \in BOOLEAN} \cup {[d EXCEPT !.plK2 = b] : b \in BOOLEAN}
           \cup {[d EXCEPT !.olK1 = b] : b \in BOOLEAN} \cup {[d EXCEPT !.olK2 = b] : b \in BOOLEAN}
@@ -62,6 +78,7 @@ Variants(d) == {[d EXCEPT !.plK1 = b] : b \in BOOLEAN} \cup {[d EXCEPT !.plK2 = 
           \cup {[d EXCEPT !.pathRef = b] : b \in BOOLEAN} \cup {[d EXCEPT !.body = x] : x \in Bodies}
           \cup {[d EXCEPT !.rec = b] : b \in BOOLEAN} \cup {[d EXCEPT !.sec = x] : x \in Secs}
           \cup {[d EXCEPT !.bad = x] : x \in Bads} \cup {[d EXCEPT !.cross = x] : x \in {"none", "fwd", "mirror"}}
+          \cup {[d EXCEPT !.zpath = x] : x \in ZPaths} \cup {[d EXCEPT !.collide = TRUE, !.pathRef = TRUE], [d EXCEPT !.collide = FALSE]}
 RECURSIVE Within(_, _)
 Within(S, n) == IF n = 0 THEN S ELSE Within(S \cup UNION {Variants(d) : d \in S}, n - 1)
 Docs == {d \in Within({Base}, MaxDev) : WF(d)}
@@ -73,16 +90,18 @@ PLKeys(d) == {k \in {"K1", "K2"} : (k = "K1" /\ d.plK1) \/ (k = "K2" /\ d.plK2)}
 OLKeys(d) == {k \in {"K1", "K2", "K3"} : (k = "K1" /\ d.olK1) \/ (k = "K2" /\ d.olK2) \/ (k = "K3" /\ d.olK3)}
 Param(n, l, r, g) == [name |-> n, loc |-> l, req |-> r, tag |-> g]
 (* parameters declared on the path item of t / on the operation t itself; tag identifies the definition *)
-PathLevel(d, t) == IF t = "Z" THEN {}
+PathLevel(d, t) == IF t \in {"Z", "W"} THEN {}
                    ELSE {Param("id", "path", TRUE, 3)} \cup {Param(KName(k), KLoc(k), d.orient = "pT", 1) : k \in PLKeys(d)}
                         \cup (IF d.cross = "fwd" THEN {Param("c", "query", d.orient = "pT", 6)}
                               ELSE IF d.cross = "mirror" THEN {Param("c", "header", d.orient = "pT", 6), Param("d", "query", d.orient = "pT", 8)}
                               ELSE {})
+                        \cup (IF d.collide THEN {Param("lim", "query", d.orient = "pT", 13)} ELSE {})
 OpLevel(d, t) == CASE t = "M" -> {Param(KName(k), KLoc(k), d.orient = "oT", 2) : k \in OLKeys(d)}
                                   \cup (IF d.cross = "fwd" THEN {Param("c", "header", d.orient = "oT", 7), Param("d", "query", d.orient = "oT", 9)}
                                         ELSE IF d.cross = "mirror" THEN {Param("c", "query", d.orient = "oT", 7)}
                                         ELSE {})
-                   [] t = "Z" -> {Param("q", "query", FALSE, 4)}
+                   [] t = "Z" -> {Param("q", "query", FALSE, 4)} \cup (IF d.collide THEN {Param("lim", "query", FALSE, 12)} ELSE {})
+                   [] t = "W" -> {Param("w", "query", FALSE, 11)}
                    [] OTHER   -> {}
 (* THE merge rule of the property: path-level parameters overridden by operation-level ones of the same name and location *)
 Effective(pathParams, opParams) ==
@@ -108,8 +127,8 @@ Malformed(d, t) == t = "Z" /\ d.bad # "none"
 HasJsonBody(d, t) == t = "M" /\ d.body # "none"
 Outcome(d, t) ==
     IF Malformed(d, t)
-    THEN [ok |-> FALSE, path |-> PathOf(t), method |-> "", params |-> {}, bodies |-> {}, resp |-> {}, props |-> {}, date |-> ""]
-    ELSE [ok |-> TRUE, path |-> PathOf(t), method |-> MethodOf(t),
+    THEN [ok |-> FALSE, path |-> PathOf(d, t), method |-> "", params |-> {}, bodies |-> {}, resp |-> {}, props |-> {}, date |-> ""]
+    ELSE [ok |-> TRUE, path |-> PathOf(d, t), method |-> MethodOf(t),
           params |-> Effective(PathLevel(d, t), OpLevel(d, t)) \cup SecParams(d, t),
           bodies |-> BodiesOf(d, t), resp |-> RespKeys(t),
           props |-> IF HasJsonBody(d, t) THEN PropNames ELSE {},        \* property names of the JSON body schema
@@ -121,7 +140,7 @@ Judged(d, a) == ~(a.k = "ref" /\ a.t # "Z" /\ d.pathRef)
 (* ----------------------------- the system ------------------------------- *)
 VARIABLES doc, ser, lay, hist, ops, byKey, byId, byRef, ret
 vars == <<doc, ser, lay, hist, ops, byKey, byId, byRef, ret>>
-None == [t \in Targets |-> 0]
+None == [t \in AllOps |-> 0]
 Init == /\ doc \in Docs /\ ser \in {"json", "yaml"} /\ lay \in {"single", "multi"}
         /\ hist = <<>> /\ ops = <<>> /\ ret = <<>>
         /\ byKey = None /\ byId = None /\ byRef = None
@@ -131,7 +150,7 @@ Access(k, t) == [k |-> k, t |-> t]
 (* what an access hands back: the set of targets it yields an outcome for, as materialised *)
 Iterate == /\ CanStep
            /\ hist' = Append(hist, Access("iter", "M"))
-           /\ ret' = Append(ret, Targets)              \* fresh operations, exactly one outcome per documented operation
+           /\ ret' = Append(ret, Ops(doc))             \* fresh operations, exactly one outcome per documented operation
            /\ UNCHANGED <<doc, ser, lay, ops, byKey, byId, byRef>>
 Materialise(t, key, id, ref) ==
     LET idx == Len(ops) + 1 IN
@@ -153,33 +172,36 @@ Lookup(k, t) ==
 LookupPath(t) == Lookup("path", t)
 LookupId(t) == Lookup("id", t)
 LookupRef(t) == Lookup("ref", t)
-Next == Iterate \/ \E t \in Targets : LookupPath(t) \/ LookupId(t) \/ LookupRef(t)
+Next == Iterate \/ (\E t \in Targets : LookupPath(t) \/ LookupId(t) \/ LookupRef(t)) \/ (HasW(doc) /\ LookupPath("W"))
 Spec == Init /\ [][Next]_vars
 
 (* --------------------------- design invariants -------------------------- *)
 TypeOK == /\ doc \in Docs /\ Len(hist) = Len(ret) /\ Len(hist) <= MaxLen
-          /\ \A t \in Targets : byKey[t] \in 0..Len(ops) /\ byId[t] \in 0..Len(ops) /\ byRef[t] \in 0..Len(ops)
+          /\ \A t \in AllOps : byKey[t] \in 0..Len(ops) /\ byId[t] \in 0..Len(ops) /\ byRef[t] \in 0..Len(ops)
 (* three indices over one list: every index entry of t points at t, and t is owned once *)
-CacheCoherent == \A t \in Targets : /\ byKey[t] # 0 => ops[byKey[t]] = t
-                                    /\ byId[t] # 0 => ops[byId[t]] = t /\ byId[t] = byKey[t]
-                                    /\ byRef[t] # 0 => ops[byRef[t]] = t /\ byRef[t] = byKey[t]
+CacheCoherent == \A t \in AllOps :
+                    /\ byKey[t] # 0 => ops[byKey[t]] = t
+                    /\ byId[t] # 0 => ops[byId[t]] = t /\ byId[t] = byKey[t]
+                    /\ byRef[t] # 0 => ops[byRef[t]] = t /\ byRef[t] = byKey[t]
 SingleOwner == \A i, j \in 1..Len(ops) : ops[i] = ops[j] => i = j
 (* every access returns its own target, i.e. all routes and all histories give Outcome(doc, target) *)
-RoutesAgree == \A i \in 1..Len(hist) : ret[i] = IF hist[i].k = "iter" THEN Targets ELSE {hist[i].t}
+RoutesAgree == \A i \in 1..Len(hist) : ret[i] = IF hist[i].k = "iter" THEN Ops(doc) ELSE {hist[i].t}
 (* every documented operation yields exactly one outcome, which is Ok(effective inputs) or Err(path) *)
-ExactlyOneOutcome == \A t \in Targets : LET o == Outcome(doc, t) IN
-                        /\ o.path = PathOf(t)
+ExactlyOneOutcome == \A t \in Ops(doc) : LET o == Outcome(doc, t) IN
+                        /\ o.path = PathOf(doc, t)
                         /\ (o.ok <=> ~Malformed(doc, t))
                         /\ o.ok => \A p, q \in o.params : (p.name = q.name /\ p.loc = q.loc) => p = q
 (* operation level wins on the same (name, in); everything else of both levels is kept *)
-MergeLaw == \A t \in Targets : LET e == Effective(PathLevel(doc, t), OpLevel(doc, t)) IN
+MergeLaw == \A t \in Ops(doc) : LET e == Effective(PathLevel(doc, t), OpLevel(doc, t)) IN
                /\ OpLevel(doc, t) \subseteq e
                /\ \A p \in PathLevel(doc, t) : p \in e \/ \E o \in OpLevel(doc, t) : o.name = p.name /\ o.loc = p.loc
                /\ e \subseteq PathLevel(doc, t) \cup OpLevel(doc, t)
 
 (* the override is keyed by the PAIR (name, in): sharing only the name with one operation-level parameter and only the
    location with another one overrides nothing *)
-PairKeyed == \A t \in Targets : \A p \in PathLevel(doc, t) :
+(* different operations have different (path, method): a reference or a path can never denote two of them *)
+DistinctOps == \A t, u \in Ops(doc) : (PathOf(doc, t) = PathOf(doc, u) /\ MethodOf(t) = MethodOf(u)) => t = u
+PairKeyed == \A t \in Ops(doc) : \A p \in PathLevel(doc, t) :
                 (~\E o \in OpLevel(doc, t) : o.name = p.name /\ o.loc = p.loc) => p \in Outcome(doc, t).params \/ Malformed(doc, t)
 
 (* ------------------------------- export --------------------------------- *)
@@ -193,11 +215,12 @@ DocId(d) == B2N(d.plK1) + 2 * B2N(d.plK2) + 4 * B2N(d.olK1) + 8 * B2N(d.olK2) + 
           + 9216 * (SIdx(d.sec, <<"none", "hdr", "qry", "basic", "off", "ref">>) - 1)
           + 55296 * (SIdx(d.bad, <<"none", "paramref", "noin", "itemref">>) - 1)
           + 221184 * (SIdx(d.cross, <<"none", "fwd", "mirror">>) - 1)
+          + 663552 * (SIdx(d.zpath, <<"/z", "/f/~1", "/f/~0", "/f/~01", "/f/~10">>) - 1) + 3317760 * B2N(d.collide)
 Export == IF hist = <<>> THEN TRUE
           ELSE IF First
           THEN PrintT(<<"CASE", ToJson([id |-> DocId(doc), d |-> doc, w |-> Weight(doc), ser |-> ser, lay |-> lay, h |-> hist,
                                         judged |-> [i \in 1..Len(hist) |-> Judged(doc, hist[i])],
-                                        exp |-> [t \in Targets |-> Outcome(doc, t)]])>>)
+                                        exp |-> [t \in Ops(doc) |-> Outcome(doc, t)]])>>)
           ELSE PrintT(<<"CASE", ToJson([id |-> DocId(doc), ser |-> ser, lay |-> lay, h |-> hist,
                                         judged |-> [i \in 1..Len(hist) |-> Judged(doc, hist[i])]])>>)
 =============================================================================
